@@ -207,6 +207,11 @@ def controlPath (wd : Str) : Str := lit "ControlPath=" ++ muxDir wd ++ lit "/%C"
 def muxArgs (wd : Str) : List Arg :=
   [sO, .s ctlMaster, sO, .s ctlPersist, sO, .s (controlPath wd)]
 
+/-- the `if use_multiplexing:` block; `some wd`: enabled, sockets below work directory `wd` -/
+def muxPart : Option Str → List Arg
+  | some wd => muxArgs wd
+  | none => []
+
 /-- `PrivateKeyAuthenticator.get_key_for_host(host)` for the machine `exec`
 (`Path.at_host` raises `WrongHostError` unless the key's machine equals `exec`).
 `none`: the authenticator carries no key. -/
@@ -231,7 +236,7 @@ def sshHead (hs : List Host) (exec : Nat) (a : Auth) : Except Err (List Arg) :=
 /-- The argv `SSHConnector._connect` passes to `open_channel`, from the values it read. -/
 def sshArgv (head : List Arg) (hk : Bool) (mux : Option Str) (port : Nat) (opts : List Str)
     (user host : Str) : List Arg :=
-  head ++ hkArgs hk ++ (match mux with | some wd => muxArgs wd | none => [])
+  head ++ hkArgs hk ++ muxPart mux
     ++ [.s (lit "-p"), .s (natStr port)] ++ optArgs opts ++ [.s (user ++ '@' :: host)]
 
 /-- `SSHConnector._connect` of machine `i`: optional `mkdir -p` of the multiplexing directory
@@ -272,7 +277,7 @@ def scpAuth (hs : List Host) (lh : Nat) (cmd : List Arg) (a : Auth) : Except Err
 /-- the part of the scp command line `_scp_copy` builds before looking at the authenticator -/
 def scpBase (port : Nat) (hk : Bool) (opts : List Str) (mux : Option Str) : List Arg :=
   [.s (lit "scp"), .s (lit "-P"), .s (natStr port)] ++ hkArgs hk ++ optArgs opts
-    ++ (match mux with | some wd => muxArgs wd | none => [])
+    ++ muxPart mux
 
 /-- the two operands: `local_path` (a `linux.Path` of the executing host) and
 `f"{username}@{hostname}:{remote_path}"` -/
